@@ -15,6 +15,11 @@ Inductive case :=
 | CBucket (rate burst : Z) (reqs : list (Z * Z)) (acts : list Z) (tol : Z)
 (* real limit.Writer/Reader with a real clock: (time the bytes were passed on in ns, n); slack in bytes *)
 | CRate (rate burst : Z) (evs : list (Z * Z)) (slack : Z)
+(* the real vhost https / tcpmux muxer with a short sniffing timeout: kind (0 https, 1 tcpmux, 2 tcpmux with
+   passthrough), routed connection shared (SharedConn) or raw, everything the user sent, length of the
+   sniffed head, everything read from the routed connection, age of the connection when it was used,
+   the muxer's timeout, did the write towards the user succeed, did the user receive it unchanged *)
+| CMux (kind : Z) (shared : bool) (sent : bytes) (headlen : Z) (got : bytes) (age_ms timeout_ms : Z) (write_ok down_eq : bool)
 (* one user connection through a real tunnel *)
 | CTunnel (cfg : string)
     (proxies : list (string * Z * Z))      (* proxy name, public endpoint id, backend id *)
@@ -92,6 +97,12 @@ Definition check_case (c : case) : Z :=
       | None => if existsb (fun a => a =? -1) acts then 0 else 7
       end
   | CRate rate burst evs slack => if C01_rate_holds rate burst slack evs then 0 else 8
+  | CMux _ shared sent headlen got _ _ write_ok down_eq =>
+      (* the sniffer consumes the head (however segmented); afterwards the proxy reads everything *)
+      let st := sc_handover shared (sc_sniff (sc_new sent) [(headlen, headlen)]) in
+      let r := sc_reads st [(blen sent, blen sent); (blen sent, blen sent)] in
+      if negb (bytes_eqb (List.concat (fst r)) got) then 30
+      else if negb write_ok then 31 else if negb down_eq then 32 else 0
   | CTunnel _ proxies endpoint reached ppver usrc udst hdr us ur ds dr ueq deq uh dh mode cte close_ms bound_ms rate burst total elapsed_ms =>
       match predicted_backend proxies endpoint with
       | None => 20
@@ -114,6 +125,8 @@ Definition check_case (c : case) : Z :=
 Definition is_tunnel (c : case) : bool := match c with CTunnel _ _ _ _ _ _ _ _ _ _ _ _ _ _ _ _ _ _ _ _ _ _ _ _ => true | _ => false end.
 Definition has_header (c : case) : bool :=
   match c with CTunnel _ _ _ _ _ _ _ (_ :: _) _ _ _ _ _ _ _ _ _ _ _ _ _ _ _ _ => true | _ => false end.
+Definition is_aged_mux (c : case) : bool :=
+  match c with CMux _ _ _ _ _ age timeout _ _ => timeout <? age | _ => false end.
 Definition is_split (c : case) : bool :=
   match c with CLimW _ _ _ (_ :: _ :: _) => true | _ => false end.
 Definition is_waiting (c : case) : bool :=
